@@ -60,7 +60,7 @@ def trace(specs, tag, seed=0, max_paths=512):
 
 def native_run(shape, kind, pres, assign, flt='f64', release=True):
     build_symtrace()
-    a = ','.join(f'{k}={float(v)!r}' for k, v in assign.items())
+    a = ';'.join(f'{k}={float(v)!r}' for k, v in assign.items())
     line = f'{shape}|{kind}|{pres}|{a}\n'
     p = subprocess.run([BIN, 'run', flt], input=line, text=True, stdout=subprocess.PIPE, stderr=subprocess.PIPE)
     if p.returncode != 0:
@@ -130,7 +130,8 @@ def parallel(run, fn, chunks, jobs=None):
             fn(run, ch)
         return
 
-    def work(ch):
+    def work(idx):
+        ch = chunks[idx]   # chunks are inherited through fork (they may hold closures)
         sub = Run(run.prop, run.tier, run.seed)
         sub.timeout_ms = run.timeout_ms
         try:
@@ -149,7 +150,7 @@ def parallel(run, fn, chunks, jobs=None):
     ctx = mp.get_context('fork')
     caller = _Caller(work)   # registered before the workers are forked
     with ctx.Pool(min(jobs, len(chunks))) as pool:
-        for d in pool.imap_unordered(caller, chunks):
+        for d in pool.imap_unordered(caller, range(len(chunks))):
             for k in MERGE_NUM:
                 setattr(run, k, getattr(run, k) + d[k])
             for k in MERGE_LIST:
